@@ -68,14 +68,14 @@ Verdict(tr) ==
          IF mo.op # ro.op THEN <<"MODEL:obs_kind", d>>
          ELSE IF mo.err # ro.err THEN <<"MODEL:api_error", d>>
          ELSE IF mo.op = "ret" THEN
-              LET c == EnterBefore(tr, d)
-                  quiet == \A i \in 1..Len(tr.cmds) : tr.cmds[i].op \notin {"bp_count", "bp_time", "bp_label", "hook"}
-              IN IF c.op = "step" /\ quiet /\ (mo.nd # ro.nd \/ mo.running # ro.running)
-                    THEN <<"PROP:step_count", d>>
-                 ELSE IF mo.why = "bp" /\ (mo.nd # ro.nd \/ mo.paused # ro.paused)
-                    THEN <<"PROP:breakpoint_pause", d>>
-                 ELSE IF ~quiet /\ mo.nd < ro.nd /\ mo.why = "bp" THEN <<"PROP:breakpoint_pause", d>>
-                 ELSE <<"MODEL:pause_point", d>>
+              \* mo.by / mo.clean: the command that entered this run() call and whether any breakpoint
+              \* or hook was registered at that moment (ghost fields of the model's record)
+              IF mo.by = "step" /\ mo.clean /\ (mo.nd # ro.nd \/ mo.running # ro.running)
+                 THEN <<"PROP:step_count", d>>
+              ELSE IF mo.why = "bp" /\ (mo.nd # ro.nd \/ mo.paused # ro.paused)
+                 THEN <<"PROP:breakpoint_pause", d>>
+              ELSE IF ~mo.clean /\ mo.nd < ro.nd /\ mo.why = "bp" THEN <<"PROP:breakpoint_pause", d>>
+              ELSE <<"MODEL:pause_point", d>>
          ELSE <<"MODEL:snapshot", d>>
 
 TNext ==
